@@ -19,6 +19,7 @@ func main() {
 	q := flag.Bool("q", false, "argument is a Go-quoted string body (escapes interpreted)")
 	tree := flag.String("t", "shape", "tree rendering: none|shape|full")
 	nocb := flag.Bool("nocb", false, "nil callback")
+	format := flag.Bool("f", false, "also format: print F(src), reparse it, compare structure, F(F(src))")
 	flag.Parse()
 	var src []byte
 	if flag.NArg() > 0 {
@@ -59,5 +60,24 @@ func main() {
 		fmt.Printf("printed=%q same=%v\n", out, string(out) == string(src))
 		tr := oracle.CheckTokens(src, r.Root, len(r.Errs) == 0, v.Flexible())
 		fmt.Printf("tokens: clause=%q %s\n", tr.Clause, tr.Msg)
+		if *format && len(r.Errs) == 0 {
+			orig := px.Parse(src, v, true)
+			if p := px.Guard(func() { px.Format(r.Root) }); p != "" {
+				fmt.Println("FORMAT PANIC:", p)
+				continue
+			}
+			f1 := px.Print(r.Root)
+			fmt.Printf("formatted=%q\n", f1)
+			r2 := px.Parse(f1, v, true)
+			fmt.Printf("reparse errors=%d %s", len(r2.Errs), px.ErrString(r2.Errs))
+			if r2.Root != nil && len(r2.Errs) == 0 {
+				if d := astx.Equal(orig.Root, r2.Root, astx.Structure); d != "" {
+					fmt.Println("STRUCTURE DIFFERS:", d)
+				}
+				px.Format(r2.Root)
+				f2 := px.Print(r2.Root)
+				fmt.Printf("idempotent=%v\n", string(f1) == string(f2))
+			}
+		}
 	}
 }
